@@ -11,20 +11,21 @@
 
    [wf ns e]: e is built from references bound in ns, numeric constants of
    either sign, every arithmetic / bitwise / shift / comparison operator class,
+   the deferred comparisons EqExpr / NeExpr built by ref._eq(x) / ref._neq(x),
    unary operators, abs / round(x[, n]) / divmod / math.floor / ceil / trunc,
    attribute and item access (string, numeric or computed keys) and calls with
-   positional and keyword arguments, nested at will.  Not in wf: the node
-   classes EqExpr / NeExpr (see C11_refuted_eq_expr), LiteralExpr, string
-   operands of operators, private attribute names. *)
+   positional and keyword arguments, nested at will.  Not in wf (and not built
+   by any operator of the API): LiteralExpr, string operands of operators,
+   private attribute names.  _partial: token level (the lexical layer is
+   validated against Python's tokenize, not proved). *)
 From Coq Require Import List Bool Arith ZArith NArith String.
 From XD Require Import model.RefSyntax model.ReprSyntax gen.GenRefsRepr lib.PyStr model.RefsShow model.RefsPrint
   proofs.RefsPrintEqs proofs.RefsPrintProofs.
 Import ListNotations.
 Open Scope N_scope.
 
-(* eval(str(e)) in the namespace of the manager rebuilds e itself.
-   _partial: expressions containing an EqExpr / NeExpr node are excluded (they
-   do NOT round trip: C11_refuted_eq_expr); full statement otherwise. *)
+(* eval(str(e)) in the namespace of the manager rebuilds e itself, for every
+   node class (EqExpr / NeExpr included).  _partial: token level only. *)
 Theorem C11_parse_show_partial : forall (kind : pystr -> bool) (e : term) (fuel : nat),
   wf (id_ns kind) e = true -> kinds_okb kind e = true -> (fuel > tsize e)%nat ->
   parse (id_ns kind) fuel (show_tokens e) = Some e.
@@ -91,23 +92,31 @@ Proof.
 Qed.
 Print Assumptions C11_copy_expr_from.
 
-(* Known finding: the deferred equality built by a._eq(b) prints as (a == b),
-   which Python evaluates with BaseRef.__eq__ to a bool -- not an expression. *)
+(* The deferred comparisons round trip: a['x']._eq(a['y'] + 1) prints as
+   (a['x'])._eq((a['y'] + 1)), which rebuilds it (fix 9341d34; before it the
+   text was (a['x'] == ...), which Python evaluates to a bool: second part). *)
 Definition eq_class : option N :=
   find (fun c => match op_str c with Some s => pystr_eqb s (s2p "==") | None => false end) bin_classes.
+Definition ne_class : option N :=
+  find (fun c => match op_str c with Some s => pystr_eqb s (s2p "!=") | None => false end) bin_classes.
 
-Theorem C11_refuted_eq_expr : exists c, eq_class = Some c /\
+Theorem C11_eq_expr_roundtrip : exists ceq cne add, eq_class = Some ceq /\ ne_class = Some cne /\
+  find (fun c => match op_str c with Some t => pystr_eqb t (s2p "+") | None => false end) bin_classes = Some add /\
   let kind := fun _ : pystr => false in
   let a := TItem (TTop (s2p "a") false) (TConst (LStr (s2p "x"))) in
   let b := TItem (TTop (s2p "a") false) (TConst (LStr (s2p "y"))) in
-  wf (id_ns kind) a = true /\ wf (id_ns kind) b = true /\
-  parse (id_ns kind) 10 (show_tokens (TBin c a b)) = Some (TConst (LBool false)) /\
-  parse (id_ns kind) 10 (show_tokens (TBin c a b)) <> Some (TBin c a b).
+  let e := TBin cne (TBin ceq a (TBin add b (TConst (LInt 1)))) (TConst (LFloat 5)) in
+  wf (id_ns kind) e = true /\ kinds_okb kind e = true /\
+  show_tokens (TBin ceq a b) = [K "("; KName (s2p "a"); K "["; KStr (s2p "x"); K "]"; K ")"; K "."; KName (s2p "_eq"); K "(";
+                                KName (s2p "a"); K "["; KStr (s2p "y"); K "]"; K ")"] /\
+  parse (id_ns kind) (S (tsize e)) (show_tokens e) = Some e /\
+  (* the operator == itself is the identity test of references *)
+  parse (id_ns kind) 10 [K "("; KName (s2p "a"); KOp (s2p "=="); KName (s2p "b"); K ")"] = Some (TConst (LBool false)).
 Proof.
-  eexists. split; [reflexivity|]. cbv zeta.
-  repeat split; try (vm_compute; reflexivity). vm_compute. discriminate.
+  eexists _, _, _. split; [reflexivity|]. split; [reflexivity|]. split; [reflexivity|]. cbv zeta.
+  repeat split; vm_compute; reflexivity.
 Qed.
-Print Assumptions C11_refuted_eq_expr.
+Print Assumptions C11_eq_expr_roundtrip.
 
 (* With the fix reverted (no parentheses around a negative literal on the left
    of the power operator) the text would be ( - 3 ** a ), which the model of
